@@ -146,6 +146,33 @@ def _update_patch_return_edges_to_match(
             )
 
 
+def _add_fallthrough_after_removed_terminator(
+    cache: ModifyCache, end_block: gtirb.ByteBlock
+) -> None:
+    """
+    If removing the end of a block (including its terminator) left an empty
+    tail without outgoing edges, the code before it now flows into the
+    following code block.
+    """
+    if (
+        not isinstance(end_block, gtirb.CodeBlock)
+        or end_block.size
+        or any(end_block.outgoing_edges)
+    ):
+        return
+
+    assert end_block.ir
+    _, next_block = cache.adjacent_blocks(end_block)
+    if isinstance(next_block, gtirb.CodeBlock):
+        end_block.ir.cfg.add(
+            gtirb.Edge(
+                source=end_block,
+                target=next_block,
+                label=gtirb.Edge.Label(type=gtirb.Edge.Type.Fallthrough),
+            )
+        )
+
+
 def delete(
     cache: ModifyCache,
     block: gtirb.ByteBlock,
@@ -175,6 +202,7 @@ def delete(
         mid, end, _ = split_block(cache, end, length)
 
         remove_block(cache, mid)
+        _add_fallthrough_after_removed_terminator(cache, end)
         edit_byte_interval(bi, start.offset + offset, length, b"", {start})
         return _cleanup_modified_blocks(cache, [start, end])
 
@@ -264,6 +292,8 @@ def insert(
             cache, end_block, replacement_length
         )
         remove_block(cache, mid_block)
+
+    _add_fallthrough_after_removed_terminator(cache, end_block)
 
     # Stitch in the new blocks to the CFG
     if added_fallthrough:
